@@ -170,6 +170,12 @@ func (x *Exec) runTop() {
 		if label == "" {
 			label = fmt.Sprintf("%d", k+1)
 		}
+		if strings.HasPrefix(label, "ASSUMED") {
+			// an unchecked postcondition: callers may use it, nothing proves it; it is
+			// reported in the trusted base
+			x.assumed["ASSUMED (unchecked) postcondition of "+x.topKeyShort()+": "+en.Text] = true
+			continue
+		}
 		if wit, ok := ct.Witness[label]; (ok || en.At != "") && len(fr.retState) > 0 {
 			// existentials with named witnesses are proved per return, with the
 			// witness expressions read at that return; clauses anchored at a return
@@ -237,7 +243,7 @@ func (x *Exec) runTop() {
 		if label == "" {
 			label = fmt.Sprintf("%d", k+1)
 		}
-		if _, w := ct.Witness[label]; !w && en.At == "" {
+		if _, w := ct.Witness[label]; !w && en.At == "" && !strings.HasPrefix(label, "ASSUMED") {
 			canaryIdx = k
 			break
 		}
